@@ -74,6 +74,15 @@ func c17Trans(c *Ctx, pre *Node, st Step, res *Result, post *State) ([]Violation
 					Detail: fmt.Sprintf("after a successful `add .` status still lists untracked paths %q: add skipped what status does not hide", rep.Untracked)})
 			}
 		}
+	case "rm":
+		// rm takes away exactly the tracked files it names; ignored files next to them are none of its business
+		outs := Allowed(pa, st)
+		if outs == nil {
+			return nil, true
+		}
+		if ok, why := MatchAny(outs, pa, qa, res, Components{I: true, W: true}); !ok {
+			vs = append(vs, Violation{Oracle: "rm-leaves-ignored-files", Command: "rm", Tags: st.Tags, Detail: "model disagrees: " + why + outputTail(res)})
+		}
 	case "reset", "restore":
 		// Goit's own files change only where the command's model allows: index, the
 		// current branch, logs. Nothing else inside .goit is rewritten.
@@ -122,6 +131,7 @@ func checkC17(e *RunEnv) *CheckResult {
 			}
 			steps = append(steps, Run("commit", "-m", "m").WithTags(st...), Run("switch", "-c", "b2").WithTags(st...),
 				Run("reset", "--hard", "HEAD@{0}").WithTags(st...), Run("reset", "--hard", "HEAD@{1}").WithTags(st...),
+				Run("rm", "sub/b").WithTags(st...), Run("rm", "a").WithTags(st...), Run("rm", "sub").WithTags(st...),
 				Run("restore", "a").WithTags(st...), Run("restore", "sub").WithTags(st...), Run("restore", ".goit").WithTags(st...), Run("restore", ".goit/HEAD").WithTags(st...))
 			cur, has := a.W[".goitignore"]
 			for _, ig := range ignores {
